@@ -52,12 +52,21 @@ def getOpt {β : Type} (f : Json → Except String β) (j : Json) (k : String) :
   | .null => pure none
   | v => do pure (some (← f v))
 
-def getBoolOp (j : Json) : Except String BoolOp := do
+/-- "and" | "or" | "xor" | "table:ffFtTfTt" with four 0/1 digits (value at (F,F), (F,T), (T,F), (T,T)). -/
+def getBoolOp (j : Json) : Except String ROp := do
+  let bit (c : Char) : Except String Bool :=
+    if c == '1' then pure true else if c == '0' then pure false else .error s!"bad truth-table digit {c}"
   match ← fStr j "op" with
-  | "and" => pure .and
-  | "or" => pure .or
-  | "xor" => pure .xor
-  | o => .error s!"bad op {o}"
+  | "and" => pure (.std .and)
+  | "or" => pure (.std .or)
+  | "xor" => pure (.std .xor)
+  | o =>
+    match o.splitOn ":" with
+    | ["table", t] =>
+      match t.toList with
+      | [a, b, c, d] => pure (.table (← bit a) (← bit b) (← bit c) (← bit d))
+      | _ => .error s!"bad truth table {o}"
+    | _ => .error s!"bad op {o}"
 
 partial def getPixR (j : Json) : Except String (PixR ℚ) := do
   let kind ← fStr j "kind"
@@ -122,7 +131,11 @@ def ofMeta (m : Meta) : Json := Json.mkObj [("include", incToStr m.inc), ("rest"
 def ofVisual (v : Visual ℚ) : Json :=
   Json.mkObj [("rotation", match v.rotation with | none => Json.null | some x => ofRat x), ("rest", ofPairs v.rest)]
 
-def opStr : BoolOp → String | .and => "and" | .or => "or" | .xor => "xor"
+def opStr : ROp → String
+  | .std .and => "and" | .std .or => "or" | .std .xor => "xor"
+  | .table a b c d =>
+    let f (x : Bool) : String := if x then "1" else "0"
+    "table:" ++ f a ++ f b ++ f c ++ f d
 
 def ofD (d : Dir ℚ) : Json := ofRats [d.c, d.s]
 
